@@ -38,11 +38,13 @@ CLAIMS = {
             "(required/closed/keys/writers: no schema path stored twice, points declare minItems=maxItems=dim); JSON.order (no member "
             "picked by position)",
             "§3.7, §3.4, §4 C12"),
-    "C13": ("loop-shape and recursion-table analysis",
+    "C13": ("loop-shape and recursion-table analysis + sign analysis of denominators over CFG control dependence",
             "LOOP: every loop on the query path has a bounded shape, the three call-graph cycles match the frozen recursion "
             "table (kd-tree shrinking ranges, Bezier one-shot retry, stratified tian2019 re-entry); A5: only std::exception "
             "types are thrown; shape of guards: NaN-absorbing clamp before acos, release-active arity checks of per-section and "
-            "input-indexed tables, sibling models agree on their guards. Finiteness of values in general is not decided",
+            "input-indexed tables, sibling models agree on their guards; DIV.guard: in the model functions no floating-point division has a "
+            "denominator that vanishes at depth zero / on the ridge / on the slab surface or trench line / where a laterally varying bound reaches "
+            "zero or two of them coincide, unless a controlling condition excludes it. Finiteness of values in general is not decided",
             "§3.8, §4 C13"),
     "C14": ("static effect/alias analysis + parallel-loop discipline",
             "PURE over the query path (no shared write => no data race) and PAR on gwb-grid's parallel_for (disjoint affine "
@@ -51,8 +53,10 @@ CLAIMS = {
     "C15": ("entropy-discipline lint + effect analysis + computer-algebra identity",
             "RNG (banned entropy sources, every draw on the owning world's engine, engine written only from the seed argument "
             "and the file's seed entry), PURE (the draw is the only state a query touches), same-index rule for per-composition "
-            "tables, size-normalisation shape under exactly its flag, single shared bound broadcast with its value; thorough: symbolic "
-            "proof that the generated matrices satisfy R*R^T=I, det R=+1",
+            "tables, size-normalisation shape under exactly its flag, single shared bound broadcast with its value; QUAT: orientations blended "
+            "between two sections are mat3_cast(slerp(quat_cast, quat_cast, f)), mat3_cast is a proper rotation on unit quaternions, quat_cast "
+            "inverts it on all four branches, slerp stays on the unit sphere (identity) and its linear short cut is of rounding size; thorough: "
+            "symbolic proof that the generated matrices satisfy R*R^T=I, det R=+1",
             "§3.12, §3.6, §4 C15"),
     "C16": ("forwarding (argument provenance) analysis",
             "FWD over the extern \"C\" API and WorldBuilderWrapper: callee, identity argument forms in declared order, result "
@@ -90,9 +94,10 @@ CLAIMS.update({
             "§3.6, §3.3, §3.4, §4 C03"),
     "C04": ("control-dependence + algebraic normal forms (plume bracket, shorter-arc angle, ellipse) + alias-wrapper shape",
             "closed depth intervals and polygon-test arguments in the extent tests, shape and exclusive use of the longitude-alias "
-            "wrappers, plume cross-section interpolation (own table, one fraction, front/back outside), three-case shorter-arc angle "
-            "interpolation, ellipse equation, plume head, depth-surface pairing and value-at-points merge/interpolation, closed twin-symmetric "
-            "on-segment test of the polygon routine, no cache outliving a query (PURE). The winding number itself is not decided",
+            "wrappers, plume cross-section interpolation (own table, one fraction, front/back outside), shorter-arc angle interpolation decided region by "
+            "region of a2-a1 (conditions piecewise linear, fmod modelled), ellipse equation, plume head, depth-surface pairing and value-at-points merge/interpolation, closed twin-symmetric "
+            "on-segment test of the polygon routine and the sign/direction of its winding-number update, no cache outliving a query (PURE). "
+            "Floating-point exactness of the polygon test is not decided",
             "§3.4, §3.6, §4 C04"),
     "C05": ("sibling cross-check in normal form + model-level dataflow rules + computer-algebra comparison of simple closed forms",
             "SIB over all replicated model classes with a frozen table of explained differences, R1, G4/G2 (inclusive two-sided range "
@@ -114,16 +119,17 @@ CLAIMS.update({
             "Surface::local_value throws, who-may-call of alias-unaware implementations. Numeric sufficiency of the buffer near the poles "
             "and kd-tree pruning arithmetic are not decided",
             "§3.10, §3.4, §4 C07"),
-    "C08": ("who-may-call + alias-wrapper shape + twin-block comparison",
+    "C08": ("who-may-call + alias-wrapper shape + twin-block comparison + shift-degree abstract interpretation",
             "ONLY the clause 'a point described with longitude L or L+-360 gets the same answer': shape and exclusive use of the alias "
             "wrappers (every exit of the spherical branch tries both aliases), frozen list of alias-aware sites, point/alias twin blocks of "
-            "the ridge-distance routine identical under 1->2, periodic start value of the spherical Bezier search; plus the closed forms of "
-            "the Point distance kernels (invariant by inspection). Invariance of the remaining kernels (real arithmetic) is not decided",
+            "the ridge-distance routine identical under 1->2, periodic start value of the spherical Bezier search; plus translation invariance of the Cartesian polygon, "
+            "signed-distance and ellipse kernels by a shift-degree abstract interpretation (SHIFT.translation) and the closed forms of the "
+            "Point distance kernels. Invariance of the remaining kernels (real arithmetic) is not decided",
             "§3.5, §4 C08"),
     "C09": ("algebraic normal form of the cross-section map + layout agreement + dominance of the refusal",
             "direction vector, Cartesian and spherical 2D->3D point map, degree conversion, release-active refusal as first statement, "
             "2D slot walker vs library width table, velocity projection evaluated in statement order and unconditional, stored cross "
-            "section written once, no try block in a 2D entry point, 2D single-property forwarding",
+            "section written once by its only writer, conversion factor applied exactly in the spherical case, no try block in a 2D entry point, 2D single-property forwarding",
             "§3.6, §3.2, §3.4, §4 C09"),
 })
 
@@ -132,7 +138,8 @@ CLAIMS.update({
             "Structural/algebraic clauses only: the closest-point search's cubic coefficients (vector and scalar form) expand to the Bernstein form of "
             "BezierCurve::operator() and the reported point is that cubic at the reported parameter; the acos clamp of the great-circle "
             "distance is the identity on [-1,1]; kd-tree search structure (near child unconditional, far child pruned on the split-axis "
-            "difference, same mid in build and search, both search functions); Cartesian<->spherical round trip as an identity; closed forms "
+            "difference, same mid in build and search, both search functions, Euclidean distance of both coordinates); every section of the trench "
+            "curve is examined by the closest-point search; Cartesian<->spherical round trip as an identity; closed forms "
             "of the Point distance kernels; closed, twin-symmetric on-segment test of the polygon routine; the Bezier result record is "
             "stored as a whole. Nearest-ness, polygon exactness beyond the boundary test, Newton convergence are not decided",
             "§3.6, §3.13, §4 C19"),
